@@ -67,6 +67,29 @@ def gen_cases(tier, rng):
                     cases.append({"n_intf": n_intf, "workers": w, "steps": steps, "seed": 2000 + seed, "moves": ["sh"] * n_intf,
                                   "schedule": [rng.randint(0, w - 1) for _ in range(steps)], "stops": [steps - d], "kind": "short-restart",
                                   "init_reach": [0] + [rng.randint(i, n_intf) for i in range(1, n_intf)]})
+    # a stop with w jobs in flight, then the user continues with FEWER workers than interrupted jobs (the surplus
+    # interrupted jobs are re-issued as workers become free); also with fewer steps left than interrupted jobs
+    for w in (2, 3, 4):
+        for w2 in range(1, w):
+            for n_intf in range(w + 1, 7 if quick else 8):
+                for seed in range(1 if quick else 5):
+                    k = rng.randint(1, 6)
+                    steps = k + w + rng.randint(2, 8)
+                    moves = ["sh", "sh"] + [rng.choice(["sh", "wf"]) for _ in range(n_intf - 2)]
+                    cases.append({"n_intf": n_intf, "workers": w, "steps": steps, "seed": 3000 + seed + 10 * w2, "moves": moves,
+                                  "schedule": [rng.randint(0, w - 1) for _ in range(steps)], "stops": [k], "workers_after": [w2],
+                                  "kind": "fewer-workers",
+                                  "init_reach": [0] + [rng.randint(i, n_intf) for i in range(1, n_intf)]})
+    # one MD job raises: the program must stop (the exception reaches the caller), and a restart continues; the
+    # accounting over both segments is that of a stop at that point
+    for w in (1, 2, 3):
+        for n_intf in range(max(3, w + 1), 6 if quick else 8):
+            for seed in range(2 if quick else 8):
+                steps = w + rng.randint(6, 14)
+                cases.append({"n_intf": n_intf, "workers": w, "steps": steps, "seed": 4000 + seed, "moves": ["sh"] * n_intf,
+                              "schedule": [rng.randint(0, w - 1) for _ in range(steps)], "fail_at": rng.randint(0, steps - 3),
+                              "kind": "failing-job",
+                              "init_reach": [0] + [rng.randint(i, n_intf) for i in range(1, n_intf)]})
     # deep random runs, more ensembles/workers, caps, multi-engine, restarts
     nrand = 110 if quick else 1200
     for i in range(nrand):
@@ -98,6 +121,83 @@ def gen_cases(tier, rng):
             case["init_reach"] = [0] + [rng.randint(i, n_intf) for i in range(1, n_intf)]
         cases.append(case)
     return cases
+
+
+# ------------------------------------------------------------------ large non-uniform blocks (Monte-Carlo P)
+
+
+def big_state(m, seed):
+    """A real REPEX_state (built by its constructor) with [0-] and m plus ensembles whose paths carry UNEQUAL
+    wire-fencing-like weights on staircase supports forming one block of m > 12 paths: `prob` then goes through
+    REPEX_state.random_prob.  Paths are stand-ins with a path_number; returns (state, W) with W[path][column]."""
+    import random as _random
+    from types import SimpleNamespace
+
+    import numpy as np
+    from infretis.classes.repex import REPEX_state
+    rng = _random.Random(seed)
+    rs = REPEX_state({"current": {"size": m + 1}, "runner": {"workers": 2}, "simulation": {"seed": seed, "zeroswap": 0.5},
+                      "output": {"screen": 0}}, minus=True)
+    n = m + 2
+    rs.rgen = np.random.default_rng(seed)
+    rs.ensembles = {i: {"name": i} for i in range(n)}
+    W = [[0] * n for _ in range(n)]
+    rs.add_traj(-1, SimpleNamespace(path_number=0), (1.0,))
+    W[0][0] = 1
+    ks = sorted(min(m, r + 2 + rng.randint(0, 3)) for r in range(m))
+    ks[-1] = ks[-2] = m
+    for e in range(m):
+        k = max(ks[e], e + 1)
+        v = [rng.randint(1, 8) for _ in range(k)] + [0] * (m - k) + [0]
+        rs.add_traj(e, SimpleNamespace(path_number=e + 1), tuple(float(x) for x in v))
+        W[e + 1] = [0] + v
+    return rs, W
+
+
+def big_pick_case(case):
+    """(m, seed, picks): draw jobs from a large non-uniform state with the real pick(); C03 on every pick, and
+    the stream identities of every job (C07).  Executed in a forked child."""
+    import io
+    import contextlib
+    m, seed, picks = case
+    out = {"C03": [], "C07": [], "picks": 0, "random_prob_calls": 0}
+    with contextlib.redirect_stdout(io.StringIO()):
+        rs, W = big_state(m, seed)
+        held_e, held_p = set(), set()
+        for j in range(picks):
+            try:
+                picked = rs.pick()
+            except Exception as e:  # noqa: BLE001
+                out["C03"].append(f"pick {j}: the program raised {e!r} when asked for a job")
+                break
+            out["picks"] += 1
+            for k, (ens, d) in enumerate(picked.items()):
+                pn, col = d["pn_old"], ens + 1
+                if W[pn][col] == 0:
+                    out["C03"].append(f"pick {j}: path {pn} was handed out for ensemble column {col} where its weight is zero "
+                                      f"(its weights: {W[pn]})")
+                if col in held_e or pn in held_p:
+                    out["C03"].append(f"pick {j}: ensemble column {col} / path {pn} is already held by an in-flight job")
+                held_e.add(col)
+                held_p.add(pn)
+                g = d["ens"].get("rgen")
+                if g is None:
+                    out["C07"].append(f"pick {j}: no move stream")
+                    continue
+                ss = g.bit_generator._seed_seq
+                sid = (int(ss.entropy), tuple(int(x) for x in ss.spawn_key))
+                if sid != (seed, (j, k)):
+                    out["C07"].append(f"job {j} (ensemble {ens}) received move stream {sid}; a function of (seed, ordinal) gives {(seed, (j, k))}")
+            busy = {i for i, x in enumerate(rs._locks) if x}
+            if busy != held_e | {m + 1}:
+                out["C03"].append(f"pick {j}: busy flags {sorted(busy)} differ from the held ensembles {sorted(held_e)} + ghost")
+        out["random_prob_calls"] = int(rs._random_count)
+        ss = rs.rgen.bit_generator._seed_seq
+        if int(ss.n_children_spawned) != out["picks"]:
+            out["C07"].append(f"after {out['picks']} jobs the scheduler's stream has spawned {int(ss.n_children_spawned)} children: "
+                              "job ordinals and spawn indices no longer coincide")
+    out["W"] = W
+    return out
 
 
 # ------------------------------------------------------------------ oracles
@@ -289,18 +389,24 @@ def read_data_file(path, n):
     return rows
 
 
-def oracle_files_c04(wd, n, idle_total, live, problems, tol=Fraction(1, 10**7)):
-    """Data-file rows + live weights in restart.toml sum to the idle counts; rows unique."""
+def oracle_files_c04(wd, n, idle_total, live, problems, tol=Fraction(1, 10**7), completed=None, finished=False):
+    """Data-file rows + live weights in restart.toml sum to the idle counts; rows unique; the step counter in the
+    restart file is the number of completed (treated) steps — the number the column sums are measured against."""
     import tomli
-    rows = read_data_file(os.path.join(wd, "infretis_data.txt"), n)
+    with open(os.path.join(wd, "restart.toml"), "rb") as f:
+        cfg = tomli.load(f)
+    # the data file of THIS run (a fresh start in a used folder opens infretis_data_<i>.txt)
+    rows = read_data_file(os.path.join(wd, cfg["output"].get("data_file", "infretis_data.txt")), n)
     pns = [r[0] for r in rows]
     if len(set(pns)) != len(pns):
         dup = sorted({p for p in pns if pns.count(p) > 1})
         problems.append(f"data file holds more than one row for path(s) {dup}")
-    with open(os.path.join(wd, "restart.toml"), "rb") as f:
-        cfg = tomli.load(f)
     fr = cfg["current"]["frac"]
     act = cfg["current"]["active"]
+    if completed is not None and cfg["current"].get("cstep") != completed:
+        problems.append(f"the restart file's step counter is {cfg['current'].get('cstep')} but {completed} steps were completed and credited")
+    if finished and cfg["current"].get("locked"):
+        problems.append(f"a finished run's restart file still lists jobs in flight: {cfg['current'].get('locked')}")
     for pn in pns:
         if pn in act:
             problems.append(f"live path {pn} has a row in the data file")
@@ -418,6 +524,8 @@ def run_case(case):
         H.write_setup(wd, n_intf=case["n_intf"], moves=case["moves"], workers=case["workers"], steps=case["steps"],
                       seed=case["seed"], cap=case.get("cap"), delete_old=case.get("delete_old", False), init_reach=case.get("init_reach"), **kw)
         stops = list(case.get("stops", []))
+        workers_after = list(case.get("workers_after", []))
+        total_treats = 0
         sched = list(case["schedule"] or [])
         n = case["n_intf"] + 1
         idle_total = [0] * n
@@ -426,12 +534,18 @@ def run_case(case):
         while True:
             rec = Rec()
             stop_after = stops.pop(0) if stops else None
-            res = H.run_sim(wd, inp="infretis.toml" if first else "restart.toml", schedule=sched, stop_after=stop_after, recorder=rec)
+            extra = {}
+            if not first and workers_after:
+                extra["workers"] = workers_after.pop(0)
+            if seg == 0 and case.get("fail_at") is not None:
+                extra["fail_jobs"] = [case["fail_at"]]
+            res = H.run_sim(wd, inp="infretis.toml" if first else "restart.toml", schedule=sched, stop_after=stop_after, recorder=rec, **extra)
             if res["status"] == "none":
                 if first:
                     out["model"].append("setup_config returned None on a fresh set-up")
                 break
-            first = False
+            # (a job that failed before any step was completed leaves no restart file: start over from the input)
+            first = not os.path.exists(os.path.join(wd, "restart.toml"))
             seg += 1
             out["stats"]["segments"] = seg
             sched = sched[len(res["completed"]):]
@@ -469,12 +583,17 @@ def run_case(case):
             # files after this segment
             p4f = []
             live = rec.ops[-1]["after"]["live"] if rec.ops else rec.init["live"]
-            if rec.ops:
-                out["stats"]["data_rows"] = oracle_files_c04(wd, n, idle_total, live, p4f)
+            total_treats += sum(1 for op in rec.ops if op["kind"] == "treat")
+            if rec.ops and total_treats:
+                out["stats"]["data_rows"] = oracle_files_c04(wd, n, idle_total, live, p4f, completed=total_treats,
+                                                             finished=res["status"] == "done")
             out["C04"] += [f"segment {seg} files: {p}" for p in p4f]
             if res["status"] == "done":
                 if res["in_flight"]:
                     out["C05"].append(f"finished run left jobs in flight: {res['in_flight']}")
+                if case.get("fail_at") is not None and seg == 1:
+                    out["C04"].append(f"MD job {case['fail_at']} raised an exception but the run went on to 'finish': the step of the failed job "
+                                      "was counted without its result being treated")
                 break
             if seg > 6:
                 break
